@@ -926,6 +926,16 @@ def run(tier):
                     'a limit cached before the automatic time limit is stored (or before the options change) is the one every later check runs with: the command is no longer stopped after the configured time')
 
     chk.guard(_memo_rule, chk, prog)
+    # ... nor by a jump out of a finally block, which discards the
+    # SystemExit in flight just as a true __exit__ does (shared with C05.R9)
+    from . import c05 as _c05
+    sub5 = Check('C05', 'other', tier, [], [])
+    chk.guard(_c05.rule_r9, sub5, prog)
+    Check.restrict(sub5, lambda wh, what: 'finally' in str(what)
+                   or wh.startswith(('__main__', 'cli')))
+    chk.adopt('C10.R10', 'the exit with status 1 is not discarded by a '
+              'return / break / continue inside a finally block (shared '
+              'with C05.R9)', sub5)
     extra = None
     if tier == 'thorough':
         from .. import selftest
